@@ -107,7 +107,7 @@ pub proof fn lemma_c10_plain(rt: nat, sp: nat, s: nat)
         /*[C10 spread.rej-plain]*/ (r matches Err(ContractError::MaxSpreadAssertion {})) && max_spread is Some && belief_price is None ==> c10_rej_plain(norm_ret(offer_decimal, return_decimal, return_asset.amount.0 as nat),
             norm_ret(offer_decimal, return_decimal, spread_amount.0 as nat), max_spread->Some_0.0 as nat),
 //%%head
-//%%insert before #1 /let expected_return = offer_amount \/ belief_price;/
+//%%insert before #1 /let expected_return\b/
         proof { if belief_price.0.v() > 0 { lemma_c10_belief(offer_amount.0.v(), return_amount.0.v(), belief_price.0.v(), max_spread.0.v()); } }
 //%%insert before #1 /if Decimal256::from_ratio\(spread_amount, return_amount \+ spread_amount\) > max_spread/
         proof { if return_amount.0.v() + spread_amount.0.v() > 0 { lemma_c10_plain(return_amount.0.v(), spread_amount.0.v(), max_spread.0.v()); } }
